@@ -59,7 +59,7 @@ def mc_configs(tier):
         ("mc_member", base_consts(DstKinds={"mc"}, Ops={"join", "leave", "drop", "bind", "setml", "send", "recv"},
                                   MaxSend=2, MaxSock=3, MaxCtl=3 if q else 4),
          ["Join", "LeaveOk", "LeaveErr", "DropMember", "DropPlain", "DropLoaded", "BindOk", "SetMl", "SendMcNet",
-          "SendMcLoop", "SendMcNone", "DeliverQueued", "DeliverUnbound", "DeliverSilent", "DeliverFull",
+          "SendMcSkip", "SendMcLoop", "SendMcNone", "DeliverQueued", "DeliverUnbound", "DeliverSilent", "DeliverFull",
           "LoDeliverQueued", "LoDeliverSilent", "RecvWhole"]),
         # capacity overflow with a slow receiver, readable() buffering one more
         ("mc_cap", base_consts(Cap=2, DstPorts={1}, DstKinds={"host", "lo"}, Ops={"send", "recv", "readable"},
@@ -105,6 +105,9 @@ def gen_configs(tier, seed):
                                 Grouped=True, MaxRecv=2 if q else 3), None),
         ("gen_filter", base_consts(DstPorts={1}, DstKinds={"host"}, Ops={"connect", "drop", "bind", "send", "recv"},
                                    Bufs={8}, MaxSend=1, MaxSock=3, MaxCtl=2, MaxLen=4 if q else 5, **g), None),
+        # multicast fan-out around a local member whose loop option is off (join order, other members still served)
+        ("gen_mcloop", base_consts(DstPorts={1}, DstKinds={"mc"}, Ops={"join", "setml", "send", "recv"}, Bufs={8},
+                                   MaxSend=1, MaxSock=2, MaxCtl=3, MaxLen=5 if q else 6, Grouped=True, MaxRecv=1), None),
         ("gen_zero", base_consts(Cap=1, DstPorts={1}, Lens={0}, DstKinds={"host", "lo"}, Ops={"connect", "send", "recv"},
                                  Bufs={8}, MaxSend=2, MaxSock=2, MaxCtl=1, MaxLen=5, **g), None),
         # random walks of the full alphabet
